@@ -82,6 +82,10 @@ CHECKS = {
    "complete enumeration of binding configurations x deviation-bounded schedule search, wire-driven reference demultiplexer",
    "Every subset (size <= 3) of five candidate bindings (own address x2 ports, wildcard, another machine's address, limited broadcast) on a receiving machine, crossed with companions on a second machine, with/without ARP and with/without a MAC in the sender's route, receives nine datagrams to {A1, A2, broadcast} x {P, Q, R}; for every datagram on the wire and every tap it reached a ten-line reference names the one recorder that must get it, and the recorders' logs must equal that multiset (payload, source and destination included); second binds must be refused.",
    "quick: 26 x 3 x 3 configurations; thorough: 26 x 26 x 3; d <= 1.", "6 C04"),
+ "C19": (True, "E3 + E2", "model_checking",
+   "complete enumeration of description trees x renderings for parse round trip and structural-error rejection, plus schedule-explored runs of the described simulations",
+   "Description trees (3 application chains x network placements x address pools x wiring by name/address x protocol modes x argument values with spaces, escaped quotes, '=' and '[' x capture modes x counts) are rendered 768 ways (tabs/4 spaces, LF/CRLF, section orders, ...) and must parse back to the same structure; every structural error class applied at every line must be rejected with a message; every valid tree is run through generate_and_run_sim under a paused clock (a subset in every schedule within one deviation): the run ends Exited and the wire shows each sender's payload travelling to the named receiver.",
+   "Values the grammar cannot represent (']', bare quote, four spaces, CR/LF) are outside the alphabet; std HashMap order in the generator is not controllable, every default execution is run twice and must agree; each execution leaks ~35 KB (machines are built inside the generator), which bounds the run counts.", "6 C19"),
  "C20": (True, "E2", "model_checking",
    "deviation-bounded schedule and frame-delay search over the real DnsClient/DnsServer on the socket stack",
    "Record sets (1-3 names incl. every printable character and the 24/25-byte names, addresses 0.0.0.0 and 255.255.255.255) and 1-3 clients running lookup scripts (same name twice, crossing names) are executed in every schedule within d deviations with frames held back so that replies arrive in any order: every call returns the registered address, every query has a reply to the same endpoint echoing id and name, and a repeated lookup puts no frame on the wire.",
